@@ -293,6 +293,13 @@
 //     literal of a translated struct a call in a field of abstract type (which
 //     the structure does not have) is dropped silently when the callee is listed
 //     under "pure" or "ignore" (otherwise it is an error in traced functions);
+//   - "elem_loop" (per function): in an effect loop over an abstract collection
+//     the value variable may be re-bound from a call on itself,
+//     `v = f(v)` / `v = f(v).(T)`: the call's trace entry followed by
+//     ("rebind v", [source text of the new value]); a value written through an
+//     abstract object that reads the loop variable (`v.Target = p + v.Target`)
+//     is shown as its source text (the entries of the body are a schema that
+//     holds for every element);
 //   - `p == q` / `p != q` on two values of abstract pointer (interface, …) type,
 //     neither being nil, is an opaque Bool value `e<k>_…` (which object a pointer
 //     refers to is not modelled outside "symbolic" / "refs");
@@ -391,6 +398,9 @@ type TrFunc struct {
 	ListSlices bool `json:"list_slices,omitempty"`
 	// TraceNew is the file-level option "trace_new" for this function only.
 	TraceNew bool `json:"trace_new,omitempty"`
+	// ElemLoop: in an effect loop over an abstract collection the value variable
+	// may be re-bound (`v = f(v).(T)`) and read in what is written through it.
+	ElemLoop bool `json:"elem_loop,omitempty"`
 }
 
 type trSpecFile struct {
@@ -806,6 +816,7 @@ type fctx struct {
 	forParams   map[string]bool         // opaque parameters that are functions of the iteration number
 	nFor        int                     // number of `for cond {}` loops translated so far
 	forFuel     map[*ast.ForStmt]string // their bound parameters
+	elemLoopVar types.Object            // "elem_loop": the value variable of the effect loop being translated
 }
 
 type ex struct {
@@ -2732,6 +2743,7 @@ func (c *fctx) stmts(list []ast.Stmt) string {
 			if c.nOpaque != n {
 				fail("loop body reads values that vary per element")
 			}
+			c.elemLoopVar = nil
 			return "let tr := tr ++ [(\"end\", [])]\n" + c.stmts(rest)
 		}
 		return c.stmts(rest)
@@ -2758,6 +2770,11 @@ func (c *fctx) stmts(list []ast.Stmt) string {
 			switch s := b.(type) {
 			case *ast.RangeStmt, *ast.ExprStmt:
 			case *ast.AssignStmt:
+				if vid, isId := x.Value.(*ast.Ident); c.spec.ElemLoop && isId && len(s.Lhs) == 1 && len(s.Rhs) == 1 && s.Tok == token.ASSIGN {
+					if l, ok := s.Lhs[0].(*ast.Ident); ok && c.p.info.Uses[l] != nil && c.p.info.Uses[l] == c.p.info.Defs[vid] {
+						continue // "elem_loop": the value variable is re-bound
+					}
+				}
 				if len(s.Lhs) != 1 || s.Tok != token.ASSIGN || !c.abstractTarget(s.Lhs[0]) {
 					fail("assignment %s in a loop over an abstract collection", c.show(s))
 				}
@@ -2770,6 +2787,9 @@ func (c *fctx) stmts(list []ast.Stmt) string {
 			c.loopEnd = map[*ast.EmptyStmt]int{}
 		}
 		c.loopEnd[end] = c.nOpaque
+		if vid, isId := x.Value.(*ast.Ident); c.spec.ElemLoop && isId {
+			c.elemLoopVar = c.p.info.Defs[vid]
+		}
 		return fmt.Sprintf("let tr := tr ++ [(\"for\", [%q])]\n", head) +
 			c.stmts(append(append(append([]ast.Stmt{}, x.Body.List...), end), rest...))
 	case *ast.ForStmt:
@@ -2835,6 +2855,18 @@ func (c *fctx) stmts(list []ast.Stmt) string {
 			return r
 		}), rest, nil)
 	case *ast.AssignStmt:
+		if l, ok := x.Lhs[0].(*ast.Ident); ok && c.elemLoopVar != nil && len(x.Lhs) == 1 && len(x.Rhs) == 1 && c.p.info.Uses[l] == c.elemLoopVar {
+			// "elem_loop": `v = f(v).(T)` — the call is traced, then ("rebind v", [source of the new value])
+			var inner ast.Expr = ast.Unparen(x.Rhs[0])
+			if ta, ok := inner.(*ast.TypeAssertExpr); ok {
+				inner = ast.Unparen(ta.X)
+			}
+			call, ok := inner.(*ast.CallExpr)
+			if !ok {
+				fail("re-binding %s of a loop variable", c.show(x))
+			}
+			return fmt.Sprintf("let tr := tr ++ [%s, (%q, [%q])]\n", c.traceEntry(call), "rebind "+l.Name, c.show(x.Rhs[0])) + c.stmts(rest)
+		}
 		if len(x.Lhs) == 1 && len(x.Rhs) == 1 && (x.Tok == token.ASSIGN || x.Tok == token.DEFINE) {
 			if call, ok := x.Rhs[0].(*ast.CallExpr); ok && c.isListCopy(call) {
 				return c.copyStmt(x.Lhs[0], call, rest)
@@ -3343,7 +3375,20 @@ func (c *fctx) abstractWrite(lhs ast.Expr, op string, rhs ast.Expr, k func() str
 	if !c.trace {
 		fail("assignment to %s, a field of an abstract object (needs trace)", c.show(lhs))
 	}
-	val := c.traceArg(rhs)
+	val := "\"_\""
+	mentionsElem := false
+	if c.elemLoopVar != nil {
+		ast.Inspect(rhs, func(n ast.Node) bool {
+			if id, ok := n.(*ast.Ident); ok && c.p.info.Uses[id] == c.elemLoopVar {
+				mentionsElem = true
+			}
+			return !mentionsElem
+		})
+	}
+	if !mentionsElem {
+		// ("elem_loop": a value that reads the loop variable is shown as its source text)
+		val = c.traceArg(rhs)
+	}
 	if id, ok := rhs.(*ast.Ident); ok && strings.HasPrefix(id.Name, "«") {
 		val = strings.Trim(id.Name, "«»") // already evaluated by the caller
 	} else if val == "\"_\"" {
